@@ -16,7 +16,8 @@
            no host with WAN address d                   -> dropped (noHost)
            target g filters by type:  none: accept | fullCone: g has sent anything | addrRestricted: g has sent to that ip
                                       | portRestricted: g has sent to exactly that ip:port;      else dropped (filtered)
-  NODES mirror Community/Network/Peer as far as the introduction protocol uses them (IPv4 only, endpoint without an
+  NODES mirror Community/Network/Peer as far as the introduction protocol uses them — one Network, my_peer (Lamport clock)
+    and endpoint shared by any number of overlays, identifiers derived from the clock (IPv4 only, endpoint without an
     `interfaces` attribute, max_peers not reached, empty address blacklist, blacklist_mids = own mid):
       lazy_wrapper's known-peer lookup + add_address(source);  on_old/new_introduction_request;  on_introduction_request;
       create_introduction_response (+ get_peer_for_introduction, get_verified_by_address);  on_old/new_introduction_response;
@@ -97,11 +98,13 @@ def route (hosts : List Host) (src : Nat) (d : Addr) : List Host × Outcome × A
 
 /-! ## messages -/
 
+/-- `ident` is the 16 bit identifier field; requests derive it from the sender's clock (`Gen.requestIdentifier`),
+    everything else echoes the identifier of the request it belongs to -/
 inductive Msg where
-  | introReq (ns : Bool) (key : Nat) (p : IntroReqView)
-  | introResp (ns : Bool) (key : Nat) (p : IntroRespView) (introNs : Bool)
-  | punctReq (ns : Bool) (p : PunctReqView)
-  | puncture (ns : Bool) (key : Nat) (srcLan srcWan : Addr)
+  | introReq (ns : Bool) (key : Nat) (ident : Nat) (p : IntroReqView)
+  | introResp (ns : Bool) (key : Nat) (ident : Nat) (p : IntroRespView) (introNs : Bool)
+  | punctReq (ns : Bool) (ident : Nat) (p : PunctReqView)
+  | puncture (ns : Bool) (key : Nat) (ident : Nat) (srcLan srcWan : Addr)
 
 /-- the payload class a message travels as, and through it (generated tables) its msg_id and handler -/
 def Msg.kind : Msg → PayloadKind
@@ -110,6 +113,11 @@ def Msg.kind : Msg → PayloadKind
   | .punctReq ns .. => if ns then .punctReqNew else .punctReqOld
   | .puncture ns .. => if ns then .punctureNew else .punctureOld
 
+/-- packing the identifier: old-style payload classes reduce it modulo 65536 themselves, new-style ones pack it raw as
+    an unsigned 16 bit field — a larger value raises PackError and nothing is sent -/
+def packIdent (k : PayloadKind) (i : Nat) : Option Nat :=
+  if Gen.identTruncated k then some (i % 65536) else if i < 65536 then some i else none
+
 def lookupHandler (id : Nat) : List (Nat × Handler) → Option Handler
   | [] => none
   | (i, h) :: t => if i == id then some h else lookupHandler id t
@@ -117,7 +125,11 @@ def lookupHandler (id : Nat) : List (Nat × Handler) → Option Handler
 /-- Community.on_packet: decode_map[msg_id] -/
 def handlerFor (m : Msg) : Option Handler := lookupHandler (Gen.msgId m.kind) Gen.dispatch
 
-/-! ## node state -/
+/-! ## node state
+
+  One node = one IPv8 instance: ONE Network, ONE my_peer (hence one Lamport clock) and one endpoint shared by all its
+  overlays; per overlay (service id `s`) only `my_estimated_wan` differs.  Peers are verified network-wide;
+  `get_peers()` of an overlay = the verified peers that are known to run that service. -/
 
 structure PeerRec where
   key : Nat
@@ -130,23 +142,35 @@ structure Walk where
   addr : Addr
   by_ : Option Nat           -- introduced_by (none = b"")
   ns : Bool
+  service : Option Nat := none   -- the overlay through which the address was discovered
 deriving DecidableEq, Repr, Inhabited
 
 structure Node where
   key : Nat
-  myLan : Addr               -- my_estimated_lan
-  myWan : Addr               -- my_estimated_wan
+  myLan : Addr               -- my_estimated_lan (same in every overlay)
+  wans : List (Nat × Addr) := []   -- my_estimated_wan per overlay once it differs from the initial value (= my_estimated_lan)
   machineIp : Nat            -- the one LAN interface address of the machine (get_lan_addresses())
-  peers : List PeerRec := [] -- verified peers, insertion order
+  peers : List PeerRec := [] -- verified peers, insertion order (Network.verified_peers)
+  svcs : List (Nat × Nat) := []    -- Network.services_per_peer as (peer key, service) pairs
   all : List Walk := []      -- Network._all_addresses, insertion order
   pref : List Nat := []      -- stands in for random.choice
+  clock : Nat := 0           -- my_peer's Lamport clock (global time)
 deriving Repr, Inhabited
 
 def inLanSubnets (ip : Nat) : Bool :=
   Gen.lanSubnets.any (fun s => ip / 2 ^ (32 - s.2) == s.1 / 2 ^ (32 - s.2))
 
-def Node.view (n : Node) : SelfView :=
-  { my_estimated_wan := n.myWan, my_estimated_lan := n.myLan,
+def lookupWan (s : Nat) : List (Nat × Addr) → Option Addr
+  | [] => none
+  | (k, a) :: t => if k == s then some a else lookupWan s t
+
+def Node.myWan (n : Node) (s : Nat) : Addr := (lookupWan s n.wans).getD n.myLan
+
+def Node.setWan (n : Node) (s : Nat) (a : Addr) : Node :=
+  { n with wans := (s, a) :: n.wans.filter (fun x => x.1 != s) }
+
+def Node.view (n : Node) (s : Nat := 0) : SelfView :=
+  { my_estimated_wan := n.myWan s, my_estimated_lan := n.myLan,
     address_in_lan_subnets := inLanSubnets, address_is_lan := fun ip => ip == n.machineIp }
 
 def PeerRec.view (p : PeerRec) : PeerView := { address := p.v4, lan_address := p.lan }
@@ -159,6 +183,15 @@ def PeerRec.addrs (p : PeerRec) : List Addr :=
 def Node.findPeer (n : Node) (key : Nat) : Option PeerRec := n.peers.find? (fun p => p.key == key)
 
 def Node.knows (n : Node) (key : Nat) : Bool := n.peers.any (fun p => p.key == key)
+
+def Node.hasSvc (n : Node) (key s : Nat) : Bool := n.svcs.any (fun x => x.1 == key && x.2 == s)
+
+/-- Network.discover_services(peer, [s]) — also recorded for keys that are not (or cannot be) verified -/
+def Node.addSvc (n : Node) (key s : Nat) : Node :=
+  if n.hasSvc key s then n else { n with svcs := n.svcs ++ [(key, s)] }
+
+/-- Community.get_peers() of overlay s = Network.get_peers_for_service -/
+def Node.getPeers (n : Node) (s : Nat) : List PeerRec := n.peers.filter (fun p => n.hasSvc p.key s)
 
 def Node.setPeer (n : Node) (p : PeerRec) : Node :=
   { n with peers := n.peers.map (fun q => if q.key == p.key then p else q) }
@@ -173,7 +206,7 @@ def Node.senderRec (n : Node) (key : Nat) (src : Addr) : PeerRec × Node :=
 
 def addMissing (all : List Walk) : List Addr → List Walk
   | [] => all
-  | a :: t => addMissing (if all.any (fun w => w.addr == a) then all else all ++ [⟨a, none, false⟩]) t
+  | a :: t => addMissing (if all.any (fun w => w.addr == a) then all else all ++ [⟨a, none, false, none⟩]) t
 
 /-- Network.add_verified_peer (blacklist_mids = [own mid], address blacklist empty).  For a known key the stored object
     is the one the handler mutated, so its fields are written back. -/
@@ -187,14 +220,14 @@ def setWalk (a : Addr) (w : Walk) : List Walk → List Walk
   | [] => [w]
   | x :: t => if x.addr == a then w :: t else x :: setWalk a w t
 
-/-- Network.discover_address -/
-def Node.discover (n : Node) (p : PeerRec) (a : Addr) (ns : Bool) : Node :=
+/-- Network.discover_address(peer, a, service = s, new_style = ns) -/
+def Node.discover (n : Node) (p : PeerRec) (a : Addr) (ns : Bool) (s : Nat := 0) : Node :=
   let stale := match n.all.find? (fun w => w.addr == a) with
     | none => true
     | some w => match w.by_ with
       | none => true
       | some k => !n.knows k
-  let n1 := if stale then { n with all := setWalk a ⟨a, some p.key, ns⟩ n.all } else n
+  let n1 := if stale then { n with all := setWalk a ⟨a, some p.key, ns, some s⟩ n.all } else n
   n1.addVerified p
 
 /-- Network.is_new_style -/
@@ -203,11 +236,14 @@ def Node.isNewStyle (n : Node) (a : Addr) : Bool :=
   | some w => w.ns
   | none => false
 
-/-- Network.get_walkable_addresses (as a list in `_all_addresses` order; the code returns a set) -/
-def Node.walkable (n : Node) : List Addr :=
-  (n.all.map (·.addr)).filter (fun a => !(n.peers.any (fun p => p.addrs.contains a)))
+/-- Network.get_walkable_addresses(service_id = s) (as a list in `_all_addresses` order; the code returns a set):
+    every known address that is not an address of a peer known FOR THIS SERVICE, and whose introducer runs the service
+    or which was discovered through it -/
+def Node.walkable (n : Node) (s : Nat := 0) : List Addr :=
+  ((n.all.filter (fun w => !((n.getPeers s).any (fun p => p.addrs.contains w.addr)))).filter
+    (fun w => (match w.by_ with | some k => n.hasSvc k s | none => false) || w.service == some s)).map (·.addr)
 
-/-- Network.get_verified_by_address -/
+/-- Network.get_verified_by_address (network-wide) -/
 def Node.byAddress (n : Node) (a : Addr) : Option PeerRec := n.peers.find? (fun p => p.addrs.contains a)
 
 /-- get_peer_for_introduction with random.choice replaced by the preference list -/
@@ -218,83 +254,95 @@ def pick (pref : List Nat) (avail : List PeerRec) : Option PeerRec :=
     | some p => some p
     | none => pick t avail
 
-def Node.available (n : Node) (sock : Addr) : List PeerRec :=
+def Node.available (n : Node) (sock : Addr) (s : Nat := 0) : List PeerRec :=
   match n.byAddress sock with
-  | some o => n.peers.filter (fun p => p.key != o.key)
-  | none => n.peers
+  | some o => (n.getPeers s).filter (fun p => p.key != o.key)
+  | none => n.getPeers s
 
 structure Send where
   dst : Addr
   msg : Msg
 
-/-- create_introduction_response: the sends it causes, in order: puncture request (if a peer is introduced), then —
-    by the caller — the response -/
-def Node.createResponse (n : Node) (lanSock sock respDst : Addr) (ns : Bool) : List Send :=
-  match pick n.pref (n.available sock) with
-  | none =>
-    [⟨respDst, .introResp ns n.key (Gen.respFields n.view sock Addr.zero Addr.zero) false⟩]
-  | some q =>
-    let (il, iw, introduced) := Gen.introAddrs n.view q.view
-    let (pd, pr) := Gen.punctReqSends lanSock sock q.view
-    (if introduced then [⟨pd, .punctReq ns pr⟩] else [])
-      ++ [⟨respDst, .introResp ns n.key (Gen.respFields n.view sock il iw) q.ns⟩]
+def Node.tick (n : Node) : Node := { n with clock := n.clock + 1 }
 
-/-- handler bodies; `src` is the source address the endpoint reports -/
-def Node.onIntroReq (n : Node) (src : Addr) (msgNs : Bool) (key : Nat) (pl : IntroReqView) : Node × List Send :=
+/-- create_introduction_response: the sends it causes, in order: puncture request (if a peer is introduced), then —
+    by the caller — the response.  Two global times are claimed (response, puncture request); identifiers are echoed. -/
+def Node.createResponse (n : Node) (lanSock sock respDst : Addr) (ns : Bool) (ident : Nat := 0) (s : Nat := 0) :
+    Node × List Send :=
+  let n1 := n.tick
+  match pick n1.pref (n1.available sock s) with
+  | none =>
+    (n1, [⟨respDst, .introResp ns n1.key ident (Gen.respFields (n1.view s) sock Addr.zero Addr.zero) false⟩])
+  | some q =>
+    let (il, iw, introduced) := Gen.introAddrs (n1.view s) q.view
+    let (pd, pr) := Gen.punctReqSends lanSock sock q.view
+    (if introduced then n1.tick else n1,
+     (if introduced then [⟨pd, .punctReq ns ident pr⟩] else [])
+      ++ [⟨respDst, .introResp ns n1.key ident (Gen.respFields (n1.view s) sock il iw) q.ns⟩])
+
+/-- handler bodies; `src` is the source address the endpoint reports, `s` the overlay whose prefix the packet carries -/
+def Node.onIntroReq (n : Node) (src : Addr) (msgNs : Bool) (key ident : Nat) (pl : IntroReqView) (s : Nat := 0) :
+    Node × List Send :=
   let (p0, n0) := n.senderRec key src
   let p1 := { p0 with ns := p0.ns || msgNs }
   let p2 := if Gen.learnsLan pl then { p1 with lan := some (Gen.learnedLan pl) } else p1
-  let n1 := n0.addVerified p2    -- (a stored object is mutated in place; addVerified writes a known key back)
+  let n1 := (n0.addVerified p2).addSvc key s   -- (a stored object is mutated in place; addVerified writes a known key back)
   let (lanSock, sock, dst) := Gen.respArgs pl p2.view
-  (n1, n1.createResponse lanSock sock dst p2.ns)
+  n1.createResponse lanSock sock dst p2.ns ident s
 
-def Node.onIntroResp (n : Node) (src : Addr) (key : Nat) (pl : IntroRespView) (introNs : Bool) : Node :=
+def Node.onIntroResp (n : Node) (src : Addr) (key : Nat) (pl : IntroRespView) (introNs : Bool) (s : Nat := 0) : Node :=
   let (p0, n0) := n.senderRec key src
   let p1 := { p0 with ns := true }       -- old-style responses always carry supports_new_style = 1
-  let n2 := if Gen.updatesWan n0.view pl then { n0 with myWan := pl.destination_address } else n0
+  let n2 := if Gen.updatesWan (n0.view s) pl then n0.setWan s pl.destination_address else n0
   let p2 := if Gen.respLearnsLan pl then { p1 with lan := some (Gen.respLearnedLan pl) } else p1
-  let n3 := n2.addVerified p2
-  (Gen.introductionsOf n3.view pl).foldl (fun acc a => acc.discover p2 a introNs) n3
+  let n3 := (n2.addVerified p2).addSvc key s
+  (Gen.introductionsOf (n3.view s) pl).foldl (fun acc a => acc.discover p2 a introNs s) n3
 
-def Node.onPunctReq (n : Node) (ns : Bool) (pl : PunctReqView) : List Send :=
-  let (dst, sl, sw) := Gen.punctureSends n.view pl
-  [⟨dst, .puncture ns n.key sl sw⟩]
+def Node.onPunctReq (n : Node) (ns : Bool) (ident : Nat) (pl : PunctReqView) (s : Nat := 0) : Node × List Send :=
+  let (dst, sl, sw) := Gen.punctureSends (n.view s) pl
+  (n.tick, [⟨dst, .puncture ns n.key ident sl sw⟩])
 
 def Node.onPuncture (n : Node) (src : Addr) (key : Nat) : Node := (n.senderRec key src).2
 
 /-- Community.on_packet for the eight introduction messages, dispatched through the generated table -/
-def Node.handle (n : Node) (src : Addr) (m : Msg) : Node × List Send :=
+def Node.handle (n : Node) (src : Addr) (m : Msg) (s : Nat := 0) : Node × List Send :=
   match handlerFor m, m with
-  | some .oldIntroReq, .introReq ns key pl => n.onIntroReq src ns key pl
-  | some .newIntroReq, .introReq _ key pl => n.onIntroReq src true key pl
-  | some .oldIntroResp, .introResp _ key pl ins => (n.onIntroResp src key pl ins, [])
-  | some .newIntroResp, .introResp _ key pl ins => (n.onIntroResp src key pl ins, [])
-  | some .oldPunctReq, .punctReq _ pl => (n, n.onPunctReq false pl)
-  | some .newPunctReq, .punctReq _ pl => (n, n.onPunctReq true pl)
-  | some .oldPuncture, .puncture _ key _ _ => (n.onPuncture src key, [])
-  | some .newPuncture, .puncture _ key _ _ => (n.onPuncture src key, [])
+  | some .oldIntroReq, .introReq ns key id pl => n.onIntroReq src ns key id pl s
+  | some .newIntroReq, .introReq _ key id pl => n.onIntroReq src true key id pl s
+  | some .oldIntroResp, .introResp _ key _ pl ins => (n.onIntroResp src key pl ins s, [])
+  | some .newIntroResp, .introResp _ key _ pl ins => (n.onIntroResp src key pl ins s, [])
+  | some .oldPunctReq, .punctReq _ id pl => n.onPunctReq false id pl s
+  | some .newPunctReq, .punctReq _ id pl => n.onPunctReq true id pl s
+  | some .oldPuncture, .puncture _ key _ _ _ => (n.onPuncture src key, [])
+  | some .newPuncture, .puncture _ key _ _ _ => (n.onPuncture src key, [])
   | _, _ => (n, [])      -- no handler / handler cannot decode this payload: packet dropped by on_packet
 
-/-- create_introduction_request -/
-def Node.introRequest (n : Node) (dst : Addr) (ns : Bool) : Send :=
-  ⟨dst, .introReq ns n.key ⟨dst, n.myLan, n.myWan⟩⟩
+/-- create_introduction_request: a global time is claimed, the identifier derived from it (generated), and the payload
+    packed — which fails (nothing sent) when a raw 16 bit identifier field would overflow -/
+def Node.introRequest (n : Node) (dst : Addr) (ns : Bool) (s : Nat := 0) : Node × Option Send :=
+  let n1 := n.tick
+  let kind : PayloadKind := if ns then .introReqNew else .introReqOld
+  (n1, (packIdent kind (Gen.requestIdentifier n1.clock)).map
+    (fun i => ⟨dst, .introReq ns n1.key i (Gen.reqFields (n1.view s) dst)⟩))
 
 /-- walk_to -/
-def Node.walkTo (n : Node) (a : Addr) : Send := n.introRequest a (n.isNewStyle a)
+def Node.walkTo (n : Node) (a : Addr) (s : Nat := 0) : Node × Option Send := n.introRequest a (n.isNewStyle a) s
 
-/-- send_introduction_request(peer) -/
-def Node.askPeer (n : Node) (key : Nat) : Option Send :=
-  (n.findPeer key).map (fun p => n.introRequest p.v4 p.ns)
+/-- send_introduction_request(peer) for a peer of this overlay -/
+def Node.askPeer (n : Node) (key : Nat) (s : Nat := 0) : Option (Node × Option Send) :=
+  ((n.getPeers s).find? (fun p => p.key == key)).map (fun p => n.introRequest p.v4 p.ns s)
 
 /-! ## world -/
 
 structure Pkt where
   src : Nat
+  svc : Nat
   dst : Addr
   msg : Msg
 
 structure Ev where
   src : Nat
+  svc : Nat
   dst : Addr
   msg : Msg
   out : Outcome
@@ -305,8 +353,8 @@ structure World where
   queue : List Pkt := []
   trace : List Ev := []
 
-def World.push (w : World) (src : Nat) (s : List Send) : World :=
-  { w with queue := w.queue ++ s.map (fun x => ⟨src, x.dst, x.msg⟩) }
+def World.push (w : World) (src : Nat) (s : Nat) (sends : List Send) : World :=
+  { w with queue := w.queue ++ sends.map (fun x => ⟨src, s, x.dst, x.msg⟩) }
 
 /-- process the packet at the head of the queue -/
 def World.step (w : World) : World :=
@@ -314,13 +362,13 @@ def World.step (w : World) : World :=
   | [] => w
   | pk :: rest =>
     let (hosts', out, seen) := route w.hosts pk.src pk.dst
-    let w1 := { w with hosts := hosts', queue := rest, trace := w.trace ++ [⟨pk.src, pk.dst, pk.msg, out⟩] }
+    let w1 := { w with hosts := hosts', queue := rest, trace := w.trace ++ [⟨pk.src, pk.svc, pk.dst, pk.msg, out⟩] }
     let deliver (j : Nat) : World :=
       match w1.nodes[j]? with
       | none => w1
       | some n =>
-        let (n', sends) := n.handle seen pk.msg
-        ({ w1 with nodes := w1.nodes.set j n' }).push j sends
+        let (n', sends) := n.handle seen pk.msg pk.svc
+        ({ w1 with nodes := w1.nodes.set j n' }).push j pk.svc sends
     match out with
     | .lan j => deliver j
     | .wan j => deliver j
@@ -333,32 +381,40 @@ def World.run : Nat → World → World
 /-- enough for every script in this file: each request causes at most three further packets and nothing re-requests -/
 def FUEL : Nat := 64
 
-def World.walk (w : World) (i : Nat) (a : Addr) : World :=
-  match w.nodes[i]? with
-  | none => w
-  | some n => (w.push i [n.walkTo a]).run FUEL
+/-- an API call that creates a request: the node's clock advances even when packing fails and nothing is sent -/
+def World.request (w : World) (i : Nat) (s : Nat) (r : Node × Option Send) : World :=
+  let w1 := { w with nodes := w.nodes.set i r.1 }
+  match r.2 with
+  | some sd => (w1.push i s [sd]).run FUEL
+  | none => w1
 
-def World.ask (w : World) (i : Nat) (key : Nat) : World :=
+def World.walk (w : World) (i : Nat) (a : Addr) (s : Nat := 0) : World :=
   match w.nodes[i]? with
   | none => w
-  | some n => match n.askPeer key with
+  | some n => w.request i s (n.walkTo a s)
+
+def World.ask (w : World) (i : Nat) (key : Nat) (s : Nat := 0) : World :=
+  match w.nodes[i]? with
+  | none => w
+  | some n => match n.askPeer key s with
     | none => w
-    | some s => (w.push i [s]).run FUEL
+    | some r => w.request i s r
 
-/-- the requester's "next contact attempt": a walk to every address it currently holds as walkable -/
-def World.walkAll (w : World) (i : Nat) : World :=
+/-- the requester's "next contact attempt": a walk to every address the overlay currently reports as walkable -/
+def World.walkAll (w : World) (i : Nat) (s : Nat := 0) : World :=
   match w.nodes[i]? with
   | none => w
-  | some n => n.walkable.foldl (fun acc a => acc.walk i a) w
+  | some n => (n.walkable s).foldl (fun acc a => acc.walk i a s) w
 
-def World.addHost (w : World) (h : Host) : World :=
+def World.addHost (w : World) (h : Host) (clock : Nat := 0) : World :=
   let k := w.hosts.length
   { w with hosts := w.hosts ++ [h],
-           nodes := w.nodes ++ [{ key := k, myLan := h.lan, myWan := h.lan, machineIp := h.lan.ip }] }
+           nodes := w.nodes ++ [{ key := k, myLan := h.lan, machineIp := h.lan.ip, clock := clock }] }
 
-def World.verifiedAt (w : World) (i : Nat) (key : Nat) : Option PeerRec :=
+/-- the record of `key` if it is among get_peers() of overlay s at node i -/
+def World.verifiedAt (w : World) (i : Nat) (key : Nat) (s : Nat := 0) : Option PeerRec :=
   match w.nodes[i]? with
   | none => none
-  | some n => n.findPeer key
+  | some n => (n.getPeers s).find? (fun p => p.key == key)
 
 end Ipv8.C13
